@@ -21,7 +21,20 @@ VERIF = os.path.dirname(os.path.dirname(os.path.abspath(__file__)))
 SPEC = os.path.join(VERIF, "spec")
 JAR = "/opt/veriftools/tla/tla2tools.jar"
 DEPS = "/opt/veriftools/tla/CommunityModules-deps.jar"
-NCPU = os.cpu_count() or 4
+
+
+def _ncpu():
+    """Cores a single check may use. /verif/.cpus (untracked) or VT_CPUS cap it while several
+    builders share the machine; registered commands run with all cores."""
+    try:
+        with open(os.path.join(VERIF, ".cpus")) as f:
+            return max(1, int(f.read().strip()))
+    except Exception:
+        pass
+    return max(1, int(os.environ.get("VT_CPUS", os.cpu_count() or 4)))
+
+
+NCPU = _ncpu()
 
 
 class MachineryError(Exception):
